@@ -736,12 +736,20 @@ def make_socket_stream(chunks, q, cls=None):
         made.append(_FakeSock(chunks, dgram=(kind == _s.SOCK_DGRAM)))
         return made[-1]
 
-    real = ST.socket
-    ST.socket = fake_socket
+    # (the constructors reach the socket class through the name `socket` imported into pyais.stream - or, after a
+    # rewrite, through the socket module itself: both are replaced while the reader is being built)
+    import socket as _s
+    real_mod = _s.socket
+    real = getattr(ST, 'socket', None)
+    if real is not None and not isinstance(real, type(_s)):
+        ST.socket = fake_socket
+    _s.socket = fake_socket
     try:
         return cls('127.0.0.1', 9, tbq=q)
     finally:
-        ST.socket = real
+        _s.socket = real_mod
+        if real is not None and not isinstance(real, type(_s)):
+            ST.socket = real
 
 
 SOCKET_CLASSES = [ST.SocketStream, ST.TCPConnection, ST.UDPReceiver]
